@@ -177,6 +177,39 @@ class SymPath(pathlib.PosixPath):
     def absolute(self):  # noqa: D102
         return self
 
+    # further read-only entry points a scanner may reasonably use; all answer from the same model
+    def stat(self, *, follow_symlinks=True):  # noqa: D102
+        r = _FS.rel(self)
+        if r is None or not _FS.exists(r):
+            raise FileNotFoundError(str(self))
+        t = _FS.target(r) if follow_symlinks else None
+        r = t if t is not None else r
+        is_dir = _FS.cands.get(r) == "dir"
+        size = 4096 if is_dir else len(_FS.content(r).encode())
+        ino = 1000 + sorted(_FS.cands).index(r)
+        mode = (0o040755 if is_dir else 0o100644) if not (r in _FS.links and not follow_symlinks) else 0o120777
+        return os.stat_result((mode, ino, 1, 1, 0, 0, size, 1_700_000_000, 1_700_000_000, 1_700_000_000))
+
+    def lstat(self):  # noqa: D102
+        return self.stat(follow_symlinks=False)
+
+    def is_symlink(self):  # noqa: D102
+        r = _FS.rel(self)
+        return r is not None and r in _FS.links and _FS.exists(r)
+
+    def open(self, mode="r", *a, **k):  # noqa: D102
+        f = _fake_open(self)
+        return io.BytesIO(f.read().encode()) if "b" in mode else f
+
+    def read_text(self, *a, **k):  # noqa: D102
+        return _fake_open(self).read()
+
+    def read_bytes(self):  # noqa: D102
+        return _fake_open(self).read().encode()
+
+    def samefile(self, other):  # noqa: D102
+        return str(self.resolve()) == str(SymPath(str(other)).resolve())
+
 
 def _fake_open(path, *a, **k):
     r = _FS.rel(path)
